@@ -97,9 +97,17 @@ func (h *ConfigHandlerImpl) ApplyConfig(ctx context.Context, req *pb.ApplyConfig
 	if req.GetIfMatch() == "" {
 		return nil, connect.NewError(connect.CodeInvalidArgument, errors.New("if_match is required"))
 	}
-	current, _, err := h.gate.ConfigSnapshot()
+	current, currentVersion, err := h.gate.ConfigSnapshot()
 	if err != nil {
 		return nil, connect.NewError(connect.CodeInternal, errors.New("effective config is unavailable"))
+	}
+	// A merge patch is evaluated against this snapshot, so the snapshot has to be the
+	// configuration if_match names. The compare-and-swap below only guarantees that
+	// if_match is current when the candidate is committed: without this check a patch
+	// evaluated against another configuration would be committed if the expected version
+	// became current again in between (versions are content hashes).
+	if currentVersion != req.GetIfMatch() {
+		return nil, connect.NewError(connect.CodeFailedPrecondition, errors.New("configuration version does not match"))
 	}
 
 	var candidate *config.Config
